@@ -203,6 +203,8 @@ pub struct Sim<const M: usize> {
     /// the allocator lost events (ring overflow): the ledger can no longer be trusted, the history
     /// is abandoned and reported as inconclusive
     pub poisoned: bool,
+    /// every chunk acquisition of this Sim's life: (usable bytes held just before, usable bytes of the new chunk)
+    pub acq_log: Vec<(usize, usize)>,
     /// zero-sized blocks obtained through layout-carrying calls (ptr, align, id): the Allocator ops
     /// also start from these (grow from nothing, deallocate of nothing)
     pub zsts: Vec<(*mut u8, usize, u32)>,
@@ -268,6 +270,7 @@ impl<const M: usize> Sim<M> {
             slice_inner: 0,
             poisoned: false,
             zsts: Vec::new(),
+            acq_log: Vec::new(),
         };
         if let Some(c) = cap {
             if !s.reconstruct(rep, Some(c), fallible_ctor) {
@@ -460,6 +463,7 @@ impl<const M: usize> Sim<M> {
                         }
                         rep.bump("c07.acquire_under_limit");
                     }
+                    self.acq_log.push((self.held_usable(), e.size - self.k));
                     self.chunks.push(Chunk { base: e.ptr, size: e.size, align: e.align, seq: e.seq });
                     acquired += 1;
                     if e.ptr % e.align != 0 {
